@@ -179,6 +179,13 @@ OPS = [
   ("added_over_file_pair_reversed", "*", added_over_file("Pair", rev, pick=NOT_SELF)),
   ("added_over_file_custom_form_whitespace_variant", "*", added_over_file("Potential-Form", lambda k, rng: k.replace(", ", ",") if ", " in k else k.replace(",", " , "))),
   ("added_over_file_embed_same_key", "eam fs adp", added_over_file("EAM-Embed", SAME)),
+  # labels that differ only in case: [Pair] lines look them up case-sensitively, formulas (exprtk) case-insensitively -
+  # inside a formula the two are ONE function, so one of the definitions silently stands in for the other
+  ("custom_form_labels_differ_only_in_case", "*", lambda items, info, rng: (bm.sec(items, "Potential-Form")[1].append(["CF(r, A, rho)", "777.0 + 0*r"]), (items, "cf(r, A, rho)", "CF(r, A, rho)"))[1]),
+  ("custom_form_label_case_variant_of_called_form", "*", lambda items, info, rng: (bm.sec(items, "Potential-Form")[1].insert(0, ["Other(r, k)", "777.0 + 0*r"]), (items, "other(r, k)", "Other(r, k)"))[1]),
+  ("table_form_label_case_variant_of_custom_form", "*", table_named(lambda rng: rng.choice(["CF", "Other", "OTHER"]))),
+  ("table_form_labels_differ_only_in_case", "*", table_named(lambda rng: rng.choice(["TBL", "Tbl"]))),
+  ("table_form_label_case_variant_of_builtin", "*", table_named(lambda rng: rng.choice(["AS.bornmayer", "as.Morse", "As.buck4"]))),
   ("pair_section_header_whitespace_variant", "*", dup_section("Pair", HDR_WS)),
   ("embed_section_header_whitespace_variant", "eam fs adp", dup_section("EAM-Embed", HDR_WS)),
   ("density_section_header_whitespace_variant", "eam fs adp", dup_section("EAM-Density", HDR_WS)),
